@@ -122,16 +122,36 @@ def test_names(fn_node):
     return names
 
 
-def valuations(fn_node, limit=128, fixed=None):
+def string_modes(fn_node):
+    """Parameters compared with string literals in branch tests: name -> sorted literals."""
+    a = fn_node.args
+    params = {x.arg for x in a.posonlyargs + a.args + a.kwonlyargs}
+    out = {}
+    for st in own_statements(fn_node):
+        if isinstance(st, (ast.If, ast.While)):
+            for n in ast.walk(st.test):
+                if isinstance(n, ast.Compare) and len(n.ops) == 1 and isinstance(n.ops[0], (ast.Eq, ast.NotEq)) and isinstance(n.left, ast.Name) and n.left.id in params:
+                    c = n.comparators[0]
+                    if isinstance(c, ast.Constant) and isinstance(c.value, str):
+                        out.setdefault(n.left.id, set()).add(c.value)
+    return {k: sorted(v) for k, v in out.items()}
+
+
+def valuations(fn_node, limit=128, fixed=None, with_strings=False):
     modes = sorted(mode_names(fn_node) & test_names(fn_node))
     fixed = fixed or {}
     free = [m for m in modes if m not in fixed]
     if 2 ** len(free) > limit:
         free = free[: limit.bit_length() - 1]
+    sm = string_modes(fn_node) if with_strings else {}
+    snames = sorted(n for n in sm if n not in fixed)
+    sdomains = [sm[n] + ["<other>"] for n in snames]
     for combo in itertools.product([False, True], repeat=len(free)):
-        v = dict(fixed)
-        v.update(dict(zip(free, combo)))
-        yield v
+        for scombo in itertools.product(*sdomains) if snames else [()]:
+            v = dict(fixed)
+            v.update(dict(zip(free, combo)))
+            v.update(dict(zip(snames, scombo)))
+            yield v
 
 
 def edge_filter(valuation, none_facts=None):
